@@ -384,7 +384,7 @@ func indexSet(index *v1.Index, r ref.Ref, d descriptor.Descriptor) error {
 		if index.Manifests[i].Annotations != nil {
 			name = index.Manifests[i].Annotations[aOCIRefName]
 		}
-		if (name == "" && index.Manifests[i].Digest == d.Digest) || (r.Tag != "" && name == r.Tag) {
+		if (name == "" && index.Manifests[i].Digest == d.Digest) || (r.Tag != "" && (name == r.Tag || strings.HasSuffix(name, ":"+r.Tag))) {
 			index.Manifests[i] = d
 			pos = i
 			break
@@ -399,7 +399,7 @@ func indexSet(index *v1.Index, r ref.Ref, d descriptor.Descriptor) error {
 			}
 			// prune entries without any tag and a matching digest
 			// or entries with a matching tag
-			if (name == "" && index.Manifests[i].Digest == d.Digest) || (r.Tag != "" && name == r.Tag) {
+			if (name == "" && index.Manifests[i].Digest == d.Digest) || (r.Tag != "" && (name == r.Tag || strings.HasSuffix(name, ":"+r.Tag))) {
 				index.Manifests = slices.Delete(index.Manifests, i, i+1)
 			}
 		}
